@@ -173,8 +173,11 @@ def check_nonideal(case):
     mix, pv = s.mix, s.pv
     kg = build.KG
     p0 = tuple(float(s.mem.get_permeance(case["T"], c).convert(kg, c).value) for c in (mix.first_component, mix.second_component))
-    s.initial = (build.permeance(p0[0]), build.permeance(p0[1]))
-    case = dict(case, initial={"p1": p0[0], "p2": p0[1], "units": kg})
+    from ..refmodels import convert_units
+
+    u = case.get("init_units", kg)  # the membrane's own permeances, handed over in kg/(m2 h kPa), SI or GPU
+    s.initial = (build.permeance(convert_units(p0[0], kg, u, s.m1), u), build.permeance(convert_units(p0[1], kg, u, s.m2), u))
+    case = dict(case, initial={"p1": p0[0], "p2": p0[1], "units": u})
     classes = procs.classes_of(case)
     try:
         with Trace(pv, cap=60000, keep=False):
@@ -217,6 +220,7 @@ def _nonideal_strategy():
         # both parameter sets, so that a silent fall-back to the default model is visible
         if "builtin" not in c["mixture"] and (c["mixture"].get("uq") is None or c["mixture"].get("nrtl") is None):
             c["mixture"] = draw(gen.mixture(("NRTL", "UNIQUAC"), 0.5))
+        c["init_units"] = draw(st.sampled_from(gen.UNITS))
         return c
 
     return s()
